@@ -309,16 +309,17 @@ Init ==
     /\ outp = NoOut("name") /\ fin = FALSE
     /\ calls = 0
 
-Next ==
-    /\ calls < MaxCalls
-    /\ calls' = calls + 1
-    /\ \/ "step" \in Acts /\ ~fin /\ \E k \in StepKinds, dt \in DtSet, lens \in LensSet : OnStep(ValOf(k, size), dt, lens)
-       \/ "done" \in Acts /\ \E dt \in DtSet, lens \in LensSet : OnDone(dt, lens)
-       \/ "size" \in Acts /\ \E k \in SizeKinds : OnSize(ValOf(k, Zero))
-       \/ "pre" \in Acts /\ \E k \in PreKinds : SetPreSize(ValOf(k, size))
-       \/ "name" \in Acts /\ \E nm \in Names : OnName(nm)
-       \/ "resize" \in Acts /\ \E c \in ColsSet : Resize(c)
-       \/ "pause" \in Acts /\ \E b \in BOOLEAN : SetPause(b)
+Bound == calls < MaxCalls /\ calls' = calls + 1
+
+NStep   == Bound /\ "step" \in Acts /\ ~fin /\ \E k \in StepKinds, dt \in DtSet, lens \in LensSet : OnStep(ValOf(k, size), dt, lens)
+NDone   == Bound /\ "done" \in Acts /\ \E dt \in DtSet, lens \in LensSet : OnDone(dt, lens)
+NSize   == Bound /\ "size" \in Acts /\ \E k \in SizeKinds : OnSize(ValOf(k, Zero))
+NPre    == Bound /\ "pre" \in Acts /\ \E k \in PreKinds : SetPreSize(ValOf(k, size))
+NName   == Bound /\ "name" \in Acts /\ \E nm \in Names : OnName(nm)
+NResize == Bound /\ "resize" \in Acts /\ \E c \in ColsSet : Resize(c)
+NPause  == Bound /\ "pause" \in Acts /\ \E b \in BOOLEAN : SetPause(b)
+
+Next == NStep \/ NDone \/ NSize \/ NPre \/ NName \/ NResize \/ NPause
 
 Spec == Init /\ [][Next]_vars
 
